@@ -23,7 +23,7 @@ CHECKS = {
  "C13": sym("Expected gradients are the symbolic derivative of the loss definitions (TLC proves on rational instances that they equal 2(p-t)/N, ((1-t)/(1-p)-t/p)/N, -(t/p)/N and 0 where clipped). The prediction is a leaf, an interior tensor of a small graph, or the output of FC->activation; the gradient of the prediction and of everything upstream is compared, untracked inputs must get none." + KF, "DESIGN.md 3/C13"),
  "C14": sym("TLC emits the defining formula of each activation for every shape of the grid, every Softmax dim (and nil configs), every LeakyRelu slope, plus Softmax's sum along dim; the harness compares every element for inputs including 0, -0 and |x| up to 700 and requires Softmax >= 0; invalid dims must be rejected.", "DESIGN.md 3/C14"),
  "C15": sym("Expected gradients are the symbolic derivative of the activation definitions (TLC checks the Softmax closed form p_i(g_i - sum_j p_j g_j), s(1-s), 1-tanh^2); input as leaf and as interior tensor; at exactly 0 Relu/LeakyRelu accept any value between the one-sided derivatives (both one-sided readings are evaluated)." + KF, "DESIGN.md 3/C15"),
- "C16": sym("TLC emits y[b][o] = W[o]*sum_d x[b][d] + B[o] and its derivatives for all batch/feature/output sizes of the grid with distinct symbols, and checks on the spec that the library's composition computes that value; the harness replaces the layer's parameters through the Weights() pointers before Forward (so a Forward not reading through them fails) and compares values and gradients." + KF, "DESIGN.md 3/C16"),
+ "C16": sym("TLC emits y[b][o] = W[o]*sum_d x[b][d] + B[o] and its derivatives for all batch/feature/output sizes of the grid with distinct symbols, and checks on the spec that the library's composition computes that value; the harness replaces the layer's parameters through the Weights() pointers before Forward (so a Forward not reading through them fails) and compares values and gradients; spec/FCParams.tla enumerates EVERY history of Weights() calls, replacements (through old pointers, fresh pointers, the exported field) and Forward calls up to 5 (6) actions and each Forward is replayed." + KF, "DESIGN.md 3/C16 and 7.8"),
  "C17": sym("TLC emits w - lr*g for every shape and learning rate of the grid (nil config, 0, negative), g being the derivative of the back-propagated graph; the harness calls Update through the pointer and checks the new tensor element-wise, that the pointer target was replaced, that the old tensor object, its values and its gradient are bit-for-bit unchanged, and that a tensor without gradient is rejected with nothing replaced.", "DESIGN.md 3/C17"),
 }
 
@@ -31,7 +31,7 @@ MC_NOTE = ("Trusted: spec/Autograd.tla as the reading of the statement (its loca
 MC_TECH = "TLA+ state machine model-checked by TLC; every transition dumped with a witness path and replayed on the real code with the full projected state compared"
 CHECKS.update({
  "C01": dict(level="model_checking", design="DESIGN.md 3/C01", note=MC_NOTE, technique=MC_TECH,
-   text="TLC explores the autograd state machine exhaustively within bounds - every operation DAG, tracked assignment, root, every valid order of backward-edge applications, repeated back-propagations over leaf-sharing graphs - and checks in every state that the machine's gradients equal the definitional total derivative (C01_Total) and that each edge is applied exactly once (C01_Once), over rank-0 tensors and over small tensors with real Jacobians. The machine is bound to the code by replaying every transition into an idle state on the real library and comparing values, flags and gradients of all tensors." + KF),
+   text="TLC explores the autograd state machine exhaustively within bounds - every operation DAG, tracked assignment, root, every valid order of backward-edge applications, repeated back-propagations over leaf-sharing graphs - and checks in every state that the machine's gradients equal the definitional total derivative (C01_Total) and that each edge is applied exactly once (C01_Once), over rank-0 tensors and over two small-tensor alphabets with real Jacobians; with the recorded deviation bp_edge_walk (finding D1) TLC must report C01_Total violated. The machine is bound to the code in both directions: every transition into an idle state and TLC -simulate behaviours are replayed on the real library comparing values, flags and gradients of all tensors (gradient tensors handed out earlier must stay bit-identical); pseudo-random 10-12 node DAG skeletons with doubled operands are replayed with symbolic values against the definitional gradient of every tensor; histories recorded from the real library through the hooks (and the back-propagations of the repository's own test suite, harvested with QEEP_VERIF_TRACE) are validated by TLC (Trace_Autograd / Trace_BPStruct)." + KF),
  "C08": dict(level="model_checking", design="DESIGN.md 3/C08", note=MC_NOTE, technique=MC_TECH,
    text="TLC explores all histories (within bounds) of creation, unary/binary/comparison operations, BackPropagate on any tensor and ResetGradContext(true|false) under the statement's provisos, with the tracking rule, frame (only tensors a back-propagation passes through gain a gradient, untracked roots change nothing), retirement and reset semantics as invariants; every transition is replayed on the real library comparing tracked/spent flags, gradient presence and values of all tensors, and re-run untracked to show forward values are bit-identical."),
  "C10": dict(level="model_checking", design="DESIGN.md 3/C10", note=MC_NOTE, technique=MC_TECH + "; environment action Scribble realised by really overwriting caller slices",
@@ -41,14 +41,14 @@ CHECKS.update({
 CHECKS.update({
  "C09": dict(level="exploration", design="DESIGN.md 3/C09", technique="TLA+ outcome function (Total.tla) evaluated by TLC over the argument grid; every call executed on the real code under recover + watchdog",
    note="Trusted: the preconditions transcribed in spec/TensorOps.tla (Pre), Components.tla (CompPre) and Total.tla from the statement and the validators' documented messages; arguments exhaustive within the stated grid (full product up to length 2, one position varied above), not beyond.",
-   text="TLC evaluates the outcome function of the specification (rejected, or accepted with a shape) for ~20k calls covering every public entry point with integers in [-2,6], ranks 0..5, nil tensors / slices / configs, rectangular and ragged nested data of depth 0..4, mismatched shapes and invalid configurations; the harness performs each call on the real library under recover with a watchdog and requires no panic, no hang, an error and no result exactly when the precondition is violated, otherwise a fully readable result of the specified shape."),
+   text="TLC evaluates the outcome function of the specification (rejected, or accepted with a shape) for ~20k calls covering every public entry point with integers in [-2,6], ranks 0..5, nil tensors / slices / configs, rectangular and ragged nested data of depth 0..4, mismatched shapes and invalid configurations; the harness performs each call on the real library under recover with a watchdog and requires no panic, no hang, an error and no result exactly when the precondition is violated, otherwise a fully readable result of the specified shape; in addition seeded random histories of calls that ignore the provisos of C08 must return without panicking."),
  "C11": dict(level="model_checking", design="DESIGN.md 3/C11", technique="TLA+ protocol machine (Train.tla) model-checked and every transition replayed on real layers / loss / SGD; symbolic one-step maps from TLC checked along real multi-step trajectories", note=MC_NOTE,
    text="TLC explores the training-protocol machine (forward, back-propagate, Update per parameter, Reset per parameter, every way of omitting updates and resets) with exact rational weights for the piece-wise rational models and checks Descent, GradIsCurrent, StaleIsAnError, NoLeak; every transition is replayed on a real FC layer, activation, MSE and SGD comparing weights, context state, gradients and ok/error. For every model FC -> activation -> loss TLC emits the symbolic gradient of the composed definitions; the harness runs real multi-step training and checks w_{k+1} = w_k - lr*g(w_k) after every step." + KF),
  "C18": dict(level="exploration", design="DESIGN.md 3/C18 and 4", technique="TLA+ parameter table evaluated by TLC; exact shape / tracking / support checks + statistical conformance monitor (8-sigma)",
    note="The distributional half (moments converge, positions independent, draws fresh) is a statistical statement: it is monitored with 8-sigma bands on 6e4 (1e6) draws, a rejection must reproduce on a doubled sample; TLC decides the shape / tracked / support / parameter-formula half only. Trusted: gonum's generator quality.",
    text="TLC emits for every initializer / random constructor, configuration (nil configs = documented defaults) and shape the expected shape, tracking and distribution parameters as terms (sqrt(6/fanIn), sqrt(6/(fanIn+fanOut)), sqrt(2/fanIn), sqrt(2/(fanIn+fanOut)), bounds, mean, sigma); the harness checks shape, tracked-leaf-ness and support of every element exactly and mean, variance, support coverage / one-sigma mass, freshness across calls, autocorrelation and position correlation statistically."),
  "C19": dict(level="model_checking", design="DESIGN.md 3/C19", technique="TLA+ counter machine model-checked (history variables make partition invariance an invariant); transitions and simulated long histories replayed on the real metric", note="Trusted: spec/Accuracy.tla; Result is the only observable of the counters; label ids are mapped to well-separated floats.",
-   text="TLC explores all histories (within bounds) of accepted batches and the five kinds of rejected calls and checks that the counters equal matched/total of the CONCATENATION of the accepted batches (hence partition invariance), 0 <= correct <= total, and that rejected calls change nothing; every transition of the counter-abstracted graph and prefixes of long simulated histories are replayed on the real metric (Result must equal correct/total exactly, rejected calls leave it unchanged, three re-partitions of the same data give the same Result)."),
+   text="TLC explores all histories (within bounds) of accepted batches and the five kinds of rejected calls and checks that the counters equal matched/total of the CONCATENATION of the accepted batches (hence partition invariance), 0 <= correct <= total, and that rejected calls change nothing; every transition of the counter-abstracted graph and prefixes of long simulated histories are replayed on the real metric (Result must equal correct/total exactly, rejected calls leave it unchanged, three re-partitions of the same data give the same Result); every (batch size, matches) pair up to 64 (96) is replayed; Apalache discharges an inductive invariant (AccuracyInd.tla) for 0 <= correct <= total with unbounded sizes and history length."),
  "C20": dict(level="model_checking", design="DESIGN.md 3/C20 and 4", technique="TLA+ footprint model of goroutines model-checked for NoRace / Deterministic; footprints bound to the code by write-set differencing and by executing the same programs with real goroutines under Go's race detector",
    note="TLC decides race-freedom of the footprint model; that the code's accesses stay inside the footprints is established by sequential write-set differencing (writes) and by Go's race detector on the concurrently executed programs (reads and writes) - a runtime monitor inside the conformance step. Programs are the menu of the specification, not all programs.",
    text="TLC explores every Begin/End interleaving of 2 (3) goroutines running menu programs (forward chains, activation / loss evaluation, graph construction on a shared tracked parameter and a shared untracked tensor; private graphs back-propagated, reset and re-used; random constructors) under the statement's proviso and checks NoRace, Deterministic and SharedUntouched; without the proviso it must find the race. The harness checks that each call only changes tensors inside the specification's write footprint, and runs every assignment of programs to real goroutines under the race detector, comparing every result bit-for-bit with the sequential run."),
